@@ -87,7 +87,9 @@ def mk_container(t, key):
         for f in (lambda: Base.is_fixed_byte_length(), lambda: Base.min_byte_length(), lambda: Base.max_byte_length(),
                   lambda: Base.type_byte_length(), lambda: Base().encode_bytes(), lambda: Base().value_byte_length(),
                   lambda: list(Base()), lambda: Base().to_obj(), lambda: Base.from_obj(Base().to_obj()),
-                  lambda: Base.decode_bytes(Base().encode_bytes()), lambda: Base().hash_tree_root()):
+                  lambda: Base.decode_bytes(Base().encode_bytes()), lambda: Base().hash_tree_root(),
+                  lambda: Base.default_node().merkle_root(), lambda: Base.default(None).hash_tree_root(),
+                  lambda: Base.key_to_static_gindex('f0'), lambda: Base.navigate_type('f0')):
             try:
                 f()
             except Exception:
@@ -334,6 +336,23 @@ def hashes_during(f):
 
 # --------------------------------------------------------------------------------------------------
 
+def mutate_somehow(t, y):
+    """change a decoded view through whatever mutator its type has (to expose results shared between calls)"""
+    k = kind(t)
+    for f in ((lambda: y.pop()) if k in ('list', 'bl') else None,
+              (lambda: y.append(y[0])) if k in ('list', 'bl') else None,
+              (lambda: y.__setitem__(0, type(y[0]).default(None) if hasattr(type(y[0]), 'default') else y[0])) if k in ('vec', 'list') else None,
+              (lambda: y.__setitem__(0, not y[0])) if k in ('bv', 'bl') else None,
+              (lambda: setattr(y, 'f0', mk_type(t[1]).default(None))) if k == 'cont' else None,
+              (lambda: y.change(selector=0, value=None if t[1] == 'none' else mk_type(t[1]).default(None))) if k == 'union' else None):
+        if f is None:
+            continue
+        try:
+            f()
+        except Exception:
+            pass
+
+
 def run_val(t, v):
     T = mk_type(t)
     out = []
@@ -359,6 +378,23 @@ def run_val(t, v):
     put('p.vbl', E(lambda: str(x.value_byte_length())))
     for route in ('index', 'iter', 'roiter', 'slice'):
         put('p.read.' + route, E(lambda: to_val(t, x, route)))
+    if not isinstance(t, str) and kind(t) in ('vec', 'list', 'bv', 'bl'):
+        n_el = len(v) - 1
+        pairs = [(0, 0), (0, n_el), (0, min(1, n_el)), (n_el, n_el), (n_el // 2, n_el), (0, n_el // 2), (min(1, n_el), max(n_el - 1, min(1, n_el)))]
+
+        def slices():
+            outp = []
+            for (a, b) in pairs:
+                part = x[a:b]
+                if kind(t) in ('bv', 'bl'):
+                    got = 'b' + ''.join('1' if q else '0' for q in part)
+                    exp = 'b' + v[1 + a:1 + b]
+                else:
+                    got = show(['s'] + [parse(to_val(t[1], q)) for q in part])
+                    exp = show(['s'] + list(v[1 + a:1 + b]))
+                outp.append('1' if got == exp else '0')
+            return ''.join(outp)
+        put('p.slices', E(slices))
     put('p.len', E(lambda: str(len(x)) if hasattr(x, '__len__') and not isinstance(t, str) and kind(t) not in ('cont', 'union') else '-'))
     # decode route
     if enc != 'err':
@@ -375,6 +411,19 @@ def run_val(t, v):
             y = T.deserialize(s, len(raw))
             return '%s/%d/%d' % (y.hash_tree_root().hex(), s.tell() - len(pre), int(y == x))
         put('p.decs', E(decs))
+
+        def dec2():
+            raw = bytes.fromhex(enc)
+            y1 = T.decode_bytes(raw)
+            mutate_somehow(t, y1)
+            s2 = io.BytesIO(raw)
+            y1b = T.deserialize(s2, len(raw))
+            mutate_somehow(t, y1b)
+            y2 = T.decode_bytes(raw)
+            s3 = io.BytesIO(raw)
+            y3 = T.deserialize(s3, len(raw))
+            return '%s/%s' % (y2.hash_tree_root().hex(), y3.hash_tree_root().hex())
+        put('p.dec2', E(dec2))
     # object route
 
     def obj():
@@ -490,6 +539,17 @@ def apply_op(t, x, op):
             raise ValueError("unsupported")
     elif k == 'pop':
         x.pop()
+    elif k == 'cpy':
+        # assign an existing (live, already hashed) sub-view of the same parent to another position
+        i, j = int(op[1]), int(op[2])
+        if tk == 'cont':
+            setattr(x, 'f%d' % i, getattr(x, 'f%d' % j))
+        else:
+            x[i] = x[j]
+    elif k == 'sets':
+        i = int(op[1])
+        vals = [elem_arg(t[1], q) for q in op[2][1:]]
+        x[i:i + len(vals)] = vals
     elif k == 'chg':
         sel = int(op[1])
         opts = t[1:]
@@ -571,12 +631,15 @@ def run_dec(t, pre, body, post):
     pre, body, post = bytes.fromhex(pre[1:]), bytes.fromhex(body[1:]), bytes.fromhex(post[1:])
     s = io.BytesIO(pre + body + post)
     s.seek(len(pre))
+    decb = ''
+    if not post and not pre:
+        decb = ';p.decb=%s' % E(lambda: to_val(t, T.decode_bytes(body)))
     try:
         y = T.deserialize(s, len(body))
     except RecursionError:
-        return 'p.dec=err'
+        return 'p.dec=err' + decb
     except Exception:
-        return 'p.dec=err'
+        return 'p.dec=err' + decb
     consumed = s.tell() - len(pre)
     put('p.dec', E(lambda: to_val(t, y)))
     put('p.consumed', str(consumed))
@@ -662,6 +725,22 @@ def run_tree(tr, cmds):
                 own = [x for x in fresh if not (bin(int(x))[2:].startswith(vb))]
                 return '%d/%d/%d/%s/%d' % (c1, c2, c3, root.hex(), len(own))
             out.append('%d.hcost=%s' % (k, E(hcost)))
+        elif op == 'vseq':
+            import pyimpl_partial
+            try:
+                store = pyimpl_partial.Store(n)
+                vroot = store.node(bytes(n.merkle_root()))
+            except Exception as e:
+                out.append('%d.vseq=import-err:%s' % (k, type(e).__name__))
+                continue
+            res = []
+            for q in c[1:]:
+                if q[0] == 'get':
+                    res.append(E(lambda: hexr(vroot.getter(int(q[1])))))
+                else:
+                    g, e, v = int(q[1]), int(q[2]) != 0, mk_tree(q[3])
+                    res.append(E(lambda: hexr((vroot.setter(g, expand=True) if e else vroot.setter(g))(v))))
+            out.append('%d.vseq=%s' % (k, ','.join(res)))
         elif op in ('vget', 'vset'):
             import pyimpl_partial
             try:
@@ -881,6 +960,8 @@ def run_case(line):
         return run_uop(*c[1:])
     if k == 'uinv':
         return 'p.r=%s' % E(lambda: res_str(~UINT_BY_W[int(c[1])](int(c[2]))))
+    if k == 'uctorw':
+        return 'p.r=%s' % E(lambda: str(int(UINT_BY_W[int(c[1])](UINT_BY_W[int(c[2])](int(c[3]))))))
     if k == 'uctor':
         return 'p.r=%s' % E(lambda: str(int(UINT_BY_W[int(c[1])](int(c[2])))))
     if k == 'ctor':
